@@ -211,7 +211,9 @@ func runC14(c *Case) {
 			}
 			done <- o
 		}()
-		// quiescent non-return detection: logical (no requests in flight, none for 30 s)
+		// quiescent non-return detection: logical (no requests in flight, none for 30 s
+		// since the later of the statement's start and the store's last request)
+		started := time.Now()
 		tick := time.NewTicker(200 * time.Millisecond)
 		defer tick.Stop()
 		for {
@@ -219,7 +221,11 @@ func runC14(c *Case) {
 			case o := <-done:
 				return o
 			case <-tick.C:
-				if s.cl.Inflight() == 0 && time.Since(s.st.LastActivity()) > 30*time.Second {
+				last := s.st.LastActivity()
+				if last.Before(started) {
+					last = started
+				}
+				if s.cl.Inflight() == 0 && time.Since(last) > 30*time.Second {
 					return c14outcome{hung: true}
 				}
 			}
